@@ -120,3 +120,8 @@ def fresh_import():
     for k in [k for k in sys.modules if k == 'pytorch_wavelets' or k.startswith('pytorch_wavelets.')]:
         del sys.modules[k]
     importlib.invalidate_caches()
+
+
+def lib_mode(cfg):
+    """the mode string handed to the LIBRARY: the PyWavelets alias 'per' for a pseudo-random half of the periodization cases (cfg['_alias'], set by the driver)"""
+    return 'per' if cfg.get('_alias') and cfg.get('mode') == 'periodization' else cfg['mode']
